@@ -296,7 +296,7 @@ def all_gen_names():
     ) if os.path.isdir(gdir) else []
 
 
-def make(targets, timeout=1500, jobs=None):
+def make(targets, timeout=600, jobs=None):
     jobs = jobs or int(os.environ.get("VERIF_JOBS", "8"))
     cmd = ["timeout", str(timeout), "make", "-j%d" % jobs] + targets
     p = subprocess.run(cmd, cwd=COQ, stdout=subprocess.PIPE, stderr=subprocess.STDOUT, text=True)
